@@ -384,6 +384,27 @@ CLAIMED = {
         technique="contract-based deductive verification: representation invariant with ghost sets/ranks, ghost "
                   "assignments at exits and loop ends, quantified obligations; cvc (clang AST -> z3/cvc5)",
     ),
+    'C21': dict(
+        category='proof',
+        text="Operation contracts over the engine's trace of calls: cdatagcp_finalize / cdata_exit (ffi.release, with-exit, "
+             "tp_finalize) call the destructor exactly once with the original object iff the wrapper is armed, and "
+             "disarm it BEFORE the call (re-entrant release finds nothing); ffi.gc(p, None) disarms without a call and "
+             "touches no other wrapper; cdatagcp_dealloc calls it iff still armed; an exception of the destructor never "
+             "replaces the pending one. A history lemma over these contracts (calls + [armed] == 1 unless removed) "
+             "and a whole-TU scan obligation (three functions write the destructor member) give exactly-once over any "
+             "history. new_allocator(): alloc is called once and the result is an ffi.gc wrapper around the very "
+             "object it returned, armed with free. from_buffer: the view is acquired once, stored, released exactly "
+             "once by release/clear/dealloc (never twice), and released again on every failure path. p[0] of "
+             "ffi.new('struct *') is the owning object itself. from_handle returns the object stored by the "
+             "new_handle call; a handle's address is the handle object.",
+        design_ref='DESIGN.md section 4 C21',
+        note=COMMON_NOTE + "Assumed: WHEN CPython deallocates/finalizes/clears an object (A-REFCNT, cyclic GC order); "
+             "the buffer protocol (view->obj holds the exporter until PyBuffer_Release, which is idempotent); "
+             "_my_PyErr_WriteUnraisable leaves no exception pending; a dead handle given to from_handle is the "
+             "caller's error. A sampled history battery (bounded, replay only) runs the same histories on the real build.",
+        technique="contract-based deductive verification: operation contracts over a call trace + history lemma over "
+                  "the contracts + whole-TU frame scans; cvc (clang AST -> z3/cvc5)",
+    ),
     'C23': dict(
         category='proof', engine='pyvc',
         text="_make_c_or_py_source is verified over a ghost file system with one externally visible state per I/O "
